@@ -163,6 +163,7 @@ type vcScenario struct {
 	Tags   []string            `json:"tags"`   // definitions used by successive tagadd actions
 	Probe  int                 `json:"probe"`  // Stream(id) probed for id in [0,probe)
 	Bad    []int               `json:"bad"`    // captures written as unreadable files (readPackets fails)
+	Conv   bool                `json:"conv"`   // install a converter executable "cv" before the manager starts
 }
 
 type vcFileEntry [3]uint64 // id, flow (client port - 1000), version (client bytes)
@@ -239,6 +240,38 @@ type vcRun struct {
 }
 
 var vcT0 = time.Date(2020, 1, 1, 12, 0, 0, 0, time.UTC)
+
+// deterministic converter: echoes what it was given (same protocol as testdata/test_converter.py)
+const vcConverterScript = `#!/usr/bin/python3
+import base64, json, sys
+lines = []
+while 1:
+    line = sys.stdin.readline()
+    if line == "":
+        break
+    line = line.strip()
+    if line != "":
+        lines.append(json.loads(line))
+        continue
+    print(json.dumps({"Direction": "client-to-server", "Content": base64.b64encode(json.dumps({"n": len(lines)}).encode()).decode(), "Time": "2222-02-22T22:22:22.222222"}))
+    print()
+    print("{}", flush=True)
+    lines = []
+`
+
+// waitConverter waits until the converter "cv" is (not) registered in the manager (fsnotify is asynchronous).
+func (r *vcRun) waitConverter(present bool) {
+	deadline := time.Now().Add(5 * time.Second)
+	for time.Now().Before(deadline) {
+		has := false
+		r.inLoop(func() { _, has = r.mgr.converters["cv"] })
+		if has == present {
+			return
+		}
+		time.Sleep(2 * time.Millisecond)
+	}
+	panic(fmt.Sprintf("converter cv present=%v not reached", present))
+}
 
 func vcWriteCapture(dir string, k int, pkts [][2]int, bad bool) (string, error) {
 	name := fmt.Sprintf("c%03d.pcap", k)
@@ -470,7 +503,9 @@ func (r *vcRun) listDir() []string {
 		return []string{"ERR " + err.Error()}
 	}
 	for _, e := range es {
-		out = append(out, e.Name())
+		if strings.HasSuffix(e.Name(), ".idx") { // index files only (converter caches *.cidx live in the same directory)
+			out = append(out, e.Name())
+		}
 	}
 	sort.Strings(out)
 	return out
@@ -667,6 +702,56 @@ func (r *vcRun) apply(op []json.RawMessage) []interface{} {
 			}
 		}
 		return []interface{}{vcArgStr(op, 0), name, wasunc, hit}
+	case "convtag", "convattach", "convdetach", "convremove", "convadd":
+		if !r.sc.Conv {
+			return nil
+		}
+		hasTag, hasConv := false, false
+		r.inLoop(func() {
+			_, hasTag = r.mgr.tags["tag/cv"]
+			_, hasConv = r.mgr.converters["cv"]
+		})
+		cvPath := filepath.Join(r.dir, "converter", "cv")
+		switch vcArgStr(op, 0) {
+		case "convtag":
+			if hasTag {
+				return nil
+			}
+			if err := r.mgr.AddTag("tag/cv", "blue", "sport:4321"); err != nil {
+				panic(err)
+			}
+		case "convattach", "convdetach":
+			if !hasTag || !hasConv || (r.lastSt != nil && r.lastSt.Tag && r.jobTag == "?") {
+				return nil
+			}
+			names := []string{"cv"}
+			if vcArgStr(op, 0) == "convdetach" {
+				names = nil
+			}
+			if err := r.mgr.UpdateTag("tag/cv", UpdateTagOperationSetConverter(names)); err != nil {
+				if strings.Contains(err.Error(), "too complex") { // the tag was redefined with a data filter: refused, nothing changed
+					return nil
+				}
+				panic(err)
+			}
+		case "convremove":
+			if !hasConv {
+				return nil
+			}
+			if err := os.Remove(cvPath); err != nil {
+				panic(err)
+			}
+			r.waitConverter(false)
+		case "convadd":
+			if hasConv {
+				return nil
+			}
+			if err := os.WriteFile(cvPath, []byte(vcConverterScript), 0775); err != nil {
+				panic(err)
+			}
+			r.waitConverter(true)
+		}
+		return []interface{}{vcArgStr(op, 0)}
 	case "step":
 		parked := vcCtl.snapshot()
 		ks := []string{}
@@ -727,6 +812,11 @@ func (r *vcRun) scenario(w *bufio.Writer) {
 		}
 	}
 	r.pcapDir, r.idxDir = ds["pcap"], ds["index"]
+	if r.sc.Conv {
+		if err := os.WriteFile(filepath.Join(ds["converter"], "cv"), []byte(vcConverterScript), 0775); err != nil {
+			r.t.Fatal(err)
+		}
+	}
 	r.seen = map[string]bool{}
 	r.qtext = []string{"sport:4321", "cbytes:7:", "cport:1001", "id:0", "tag:t0"}
 	for _, qt := range r.qtext {
